@@ -208,6 +208,16 @@ where
         self.outgoing_queue.extend(blocks);
     }
 
+    /// Drops everything we know about the peer. Called when its last connection closes.
+    pub(crate) fn peer_disconnected(&mut self, peer: PeerId) {
+        self.peers_wantlists.remove(&peer);
+
+        self.peers_waiting_for_cid.retain(|_cid, peers| {
+            peers.retain(|p| **p != peer);
+            !peers.is_empty()
+        });
+    }
+
     pub(crate) fn new_connection_handler(&mut self, peer: PeerId) -> ServerConnectionHandler<S> {
         self.peers_wantlists.entry(peer).or_default();
 
